@@ -2930,8 +2930,9 @@ def constants_from_enum(cls=None, module=None):
 
     if module is None:
       module = cls.__module__
-    for value in cls.__members__.values():
-      constant('{}.{}.{}'.format(module, cls.__name__, value.name), value)
+    # `__members__` also lists aliases (`value.name` is the canonical name).
+    for name, value in cls.__members__.items():
+      constant('{}.{}.{}'.format(module, cls.__name__, name), value)
     return cls
 
   if cls is None:
